@@ -646,6 +646,7 @@ impl<'a> Model<'a> {
 
         worksheet.cols = new_columns;
 
+        self.restore_cse_spill_cells(sheet)?;
         Ok(())
     }
 
@@ -779,6 +780,7 @@ impl<'a> Model<'a> {
         }
         worksheet.cols = new_columns;
 
+        self.restore_cse_spill_cells(sheet)?;
         Ok(())
     }
 
@@ -981,6 +983,7 @@ impl<'a> Model<'a> {
         self.displace_cells(&disp)?;
         self.displace_cf_ranges(sheet, &disp);
 
+        self.restore_cse_spill_cells(sheet)?;
         Ok(())
     }
 
@@ -1061,6 +1064,7 @@ impl<'a> Model<'a> {
         };
         self.displace_cells(&disp)?;
         self.displace_cf_ranges(sheet, &disp);
+        self.restore_cse_spill_cells(sheet)?;
         Ok(())
     }
 
@@ -1590,6 +1594,7 @@ impl<'a> Model<'a> {
             }
         }
 
+        self.restore_cse_spill_cells(sheet)?;
         Ok(())
     }
 
@@ -1632,6 +1637,7 @@ impl<'a> Model<'a> {
                 self.move_row_unchecked(sheet, r, delta)?;
             }
         }
+        self.restore_cse_spill_cells(sheet)?;
         Ok(())
     }
 }
